@@ -1273,7 +1273,15 @@ class EvolveAppTask(BaseEvolutionTask):
                                                     simulate_applied=True,
                                                     database=database_name)
             upgrade_method = app_upgrade_info.get('upgrade_method')
-            evolutions = get_evolution_sequence(app)
+
+            if evolver.database_state.has_model(Evolution):
+                # Don't record anything that's already been recorded for
+                # this app (such as evolutions that were explicitly marked
+                # as applied before the app was installed).
+                evolutions = get_unapplied_evolutions(app=app,
+                                                      database=database_name)
+            else:
+                evolutions = get_evolution_sequence(app)
         else:
             orig_upgrade_method = app_sig.upgrade_method
 
